@@ -436,7 +436,10 @@ def finish(ctx, G, S, where):
         ctx.violation(kind + ":normalize-copies", "%s: normalize() of a cnfgen graph returned another object" % where)
 
 
-def run_history(ctx, kind, start, ops):
+def run_history(ctx, kind, start, ops, look_every=1):
+    """look_every = k > 1: the observer lists the graph's views only after every k-th operation (and at the end); in
+    between the operations run unobserved -- no listing, no class invariant -- as in a program that edits a graph several
+    times before it looks at it again."""
     install_invariants()
     before = len(_installed["failures"])
     G, S = make(kind, start)
@@ -445,9 +448,18 @@ def run_history(ctx, kind, start, ops):
         return
     done = []
     old_views = [(0, G.edges())]            # view objects handed out earlier must keep showing the current graph
+    if look_every > 1:
+        ctx.count("histories_observed_only_now_and_then")
     for op in ops:
         done.append(op)
         w = "%s after %r" % (where, done)
+        if look_every > 1 and len(done) % look_every and len(done) != len(ops):
+            _Busy.depth += 1
+            try:
+                apply(ctx, G, S, op, w)
+            finally:
+                _Busy.depth -= 1
+            continue
         apply(ctx, G, S, op, w)
         if not compare(ctx, G, S, w):
             break
@@ -573,7 +585,7 @@ def case_random(ctx, kind, start, rseed, count, maxlen):
                 S.E.discard(S.norm(op[1], op[2]))
             elif op[0] == "update_vertex_number" and isinstance(op[1], int) and op[1] >= 0:
                 S.n = max(S.n, op[1])
-        run_history(ctx, kind, start, ops)
+        run_history(ctx, kind, start, ops, look_every=r.choice((1, 1, 2, 3, 4)))
 
 
 def case_two_objects(ctx, kind, start, rseed, count, maxlen):
@@ -607,6 +619,59 @@ def case_two_objects(ctx, kind, start, rseed, count, maxlen):
             ctx.violation("%s:class-invariant" % kind, "two objects alive, after %r: %s" % (done[-8:], f))
         ctx.judged(("two", kind, tuple(start), tuple(map(repr, done))), nontrivial=any(len(S.E) for _, S in objs),
                    sample={"class": kind, "start": start, "interleaved_history": [list(map(repr, d)) for d in done[:10]]})
+
+
+def case_huge_indices(ctx, rseed):
+    """Bipartite graphs with astronomically long sides and a handful of edges whose endpoints differ by the moduli of
+    machine arithmetic (2^32, 2^61-1 -- the modulus of integer hashing --, 2^63, 2^64): different pairs are different
+    edges.  Only the touched vertices are looked at."""
+    from cnfgen.graphs import BipartiteGraph
+    r = ctx.rng("c16huge", rseed)
+    MODS = [2 ** 61 - 1, 2 ** 32, 2 ** 31 - 1, 2 ** 63, 2 ** 64, 2 ** 53, 2 * (2 ** 61 - 1)]
+    for side in ("left", "right", "both"):
+        for mod in MODS:
+            L = 2 ** 66 if side in ("left", "both") else 12
+            R = 2 ** 66 if side in ("right", "both") else 12
+            st, B = ctx.call(BipartiteGraph, L, R)
+            if st == "exc":
+                ctx.count("huge_sides_declined")
+                continue
+            base_u, base_v = r.randint(1, 9), r.randint(1, 9)
+            twins = []
+            for k in (0, 1, 2):
+                u = base_u + (k * mod if side in ("left", "both") else 0)
+                v = base_v + (k * mod if side in ("right", "both") else 0)
+                twins.append((u, v))
+            model = set()
+            where = "BipartiteGraph(%d,%d)" % (L, R)
+            ok = True
+            for i, (u, v) in enumerate(twins):
+                for (a, b) in twins:
+                    st, h = ctx.call(B.has_edge, a, b)
+                    if st == "exc" or bool(h) != ((a, b) in model):
+                        ctx.violation("bipartite:huge-indices:has_edge", "%s after add_edge of %r: has_edge(%d,%d) is %r"
+                                      % (where, sorted(model), a, b, h))
+                        ok = False
+                st, e = ctx.call(B.add_edge, u, v)
+                if st == "exc":
+                    ctx.violation("bipartite:huge-indices:add_edge-raises:%s" % type(e).__name__, "%s: add_edge(%d,%d) raised %r" % (where, u, v, e))
+                    ok = False
+                    break
+                model.add((u, v))
+                ctx.count("edges_between_huge_indices")
+                if B.number_of_edges() != len(model):
+                    ctx.violation("bipartite:huge-indices:edge-count", "%s after add_edge of %r: number_of_edges() is %d"
+                                  % (where, sorted(model), B.number_of_edges()))
+                    ok = False
+                rn = sorted(B.right_neighbors(u))
+                ln = sorted(B.left_neighbors(v))
+                if rn != sorted(b for (a, b) in model if a == u) or ln != sorted(a for (a, b) in model if b == v):
+                    ctx.violation("bipartite:huge-indices:neighbours", "%s after add_edge of %r: right_neighbors(%d) = %r, left_neighbors(%d) = %r"
+                                  % (where, sorted(model), u, rn[:5], v, ln[:5]))
+                    ok = False
+                if not ok:
+                    break
+            ctx.judged(("huge", side, mod), nontrivial=True, sample={"sides": [L, R], "edges": [list(t) for t in twins]})
 
 
 def case_batch_sweep(ctx, kind, sizes, rseed):
@@ -671,6 +736,7 @@ def case_repo_tests(ctx):
 
 def workload(tier, seed):
     maxlen = 2 if tier == "quick" else 3
+    yield "huge_indices", {"rseed": seed}
     enum_starts = [("simple", ["Graph", 2]), ("simple", ["Graph", 3]), ("simple", ["complete", 3]),
                    ("digraph", ["DirectedGraph", 2]), ("digraph", ["DirectedGraph", 3]),
                    ("bipartite", ["BipartiteGraph", 2, 2]), ("bipartite", ["BipartiteGraph", 1, 3]),
